@@ -19,10 +19,22 @@ def _stack(t):
 def args_step(inp, q):
     if 'opbyte' not in inp or not isinstance(inp.get('st'), dict): return None
     base, items = _stack(inp['st']); abase, aitems = _stack(inp.get('alt', {}))
+    # hidden depths / nesting beyond what can be allocated natively are reduced in a way that keeps every relation the rules
+    # look at (empty?, all-true?, first false on top?, combined size above the limit?); a reduced input that does not reproduce
+    # is reported as "cannot rebuild", never as "the real code is fine"
+    reduced = 0
+    if base > 1200: base = 1200; reduced = 1
+    if abase > 1200: abase = 1200; reduced = 1
+    cs_size = _i(inp.get('cs_size0')); cs_ff = _i(inp.get('cs_ff0'), -1)
+    if cs_size > 50:
+        reduced = 1
+        if cs_ff < 0 or cs_ff >= cs_size: cs_size = 5
+        else:
+            nf = min(cs_ff, 2); cs_size = nf + min(cs_size - cs_ff, 3); cs_ff = nf
     push = inp.get('g_getop_push') or {}
     pn = _i(push.get('n'))
     a = [f"flags={_i(inp.get('flags'))}", f"sv={_i(inp.get('sv'))}", f"op={_i(inp['opbyte'])}", f"getop_ok={_i(inp.get('g_getop_ok'), 1)}",
-         f"nop={_i(inp.get('oc'))}", f"ad={_i(inp.get('ad'))}", f"cs_size={_i(inp.get('cs_size0'))}", f"cs_ff={_i(inp.get('cs_ff0'), -1)}",
+         f"nop={_i(inp.get('oc'))}", f"ad={_i(inp.get('ad'))}", f"cs_size={cs_size}", f"cs_ff={cs_ff}", f"reduced={reduced}",
          f"base={base}", f"items={items}", f"abase={abase}", f"aitems={aitems}", f"lt={_i(inp.get('g_locktime_ok'))}", f"sq={_i(inp.get('g_sequence_ok'))}", f"pos={_i(inp.get('op_pos'))}"]
     cap = 0
     for d in q.defines:
@@ -31,6 +43,7 @@ def args_step(inp, q):
     else: a.append("push=" + (_item(push) if pn else ''))
     for d in q.defines:
         if d.startswith('H_ALLOW_DISABLED='): a[5] = f"ad={d.split('=')[1]}"
+        if d.startswith('H_SV='): a[1] = f"sv={d.split('=')[1]}"
     return a
 REPLAY_STEP = {'driver': 'replay/step_replay.cpp', 'args': args_step, 'premake': ['libbitcoin.a', 'libbitcoin_deb.a'],
                'libs': ['-Wl,--start-group', '/repo/libbitcoin_deb.a', '/repo/libbitcoin.a', '/repo/secp256k1/.libs/libsecp256k1.a', '-Wl,--end-group']}
